@@ -15,10 +15,18 @@ class VariableBoundMaxPropagator(VariableBoundPropagator):
         raise NotImplementedError("max")
         
     def propagate(self):
+        range_l = self.target.domain.range_l
+        
+        if len(range_l) == 0:
+            # Empty domain (unsatisfiable system): nothing to trim
+            return False
+        
         # Obtain the max value from the
         max_v = self.max()
+        
+        if max_v is None:
+            return False
   
-        range_l = self.target.domain.range_l
         i=len(range_l)-1
         
 #        print("Max: range_l=" + str(range_l) + " max_v=" + str(max_v))
